@@ -26,4 +26,54 @@ Section W.
     destruct (IH _ W' H) as [A B]. split; auto. rewrite B, S'. reflexivity.
   Qed.
 
+  (* ---------------------------------------------------------------- *)
+  (* the oracle accepts every run of the model (operations whose theorem is proved) *)
+
+  Definition op_proved (o : op) : bool :=
+    match o with
+    | OpClosest _ _ => false
+    | OpLPM q => Nat.eqb (plen q) w
+    | _ => true
+    end.
+
+  Lemma opt_eqb_refl : forall {A} (eqb : A -> A -> bool), (forall a, eqb a a = true) ->
+    forall x, opt_eqb eqb x x = true.
+  Proof. intros A eqb H [a|]; simpl; auto. Qed.
+
+  Lemma list_eqb_refl : forall {A} (eqb : A -> A -> bool), (forall a, eqb a a = true) ->
+    forall x, list_eqb eqb x x = true.
+  Proof. intros A eqb H. induction x; simpl; auto. rewrite H, IHx. reflexivity. Qed.
+
+  Lemma entry_eqb_refl : forall e, entry_eqb e e = true.
+  Proof. intros [p v]. unfold entry_eqb. simpl. rewrite prefix_eqb_refl, N.eqb_refl. reflexivity. Qed.
+
+  Lemma step_ok : forall t o, wf w t -> op_wf w o = true -> op_proved o = true ->
+    ok_out w (to_slice t) o (snd (step w t o)) = true.
+  Proof.
+    intros t o W Ho Hp. destruct o; simpl in *; auto; try discriminate.
+    - apply wfpb_spec in Ho. rewrite get_spec by auto. apply opt_eqb_refl, N.eqb_refl.
+    - apply wfpb_spec in Ho. apply Nat.eqb_eq in Hp. unfold ok_lpm.
+      rewrite <- Hp at 1. rewrite Nat.eqb_refl.
+      assert (E : c = host w (paddr c)) by (destruct c; simpl in *; subst; reflexivity).
+      rewrite E at 1. rewrite lpm_host_spec; auto; [|apply Ho].
+      apply opt_eqb_refl, entry_eqb_refl.
+    - apply wfpb_spec in Ho. rewrite covers_spec_trie by auto. apply eqb_reflx.
+    - apply wfpb_spec in Ho. rewrite intersects_spec_trie by auto. apply eqb_reflx.
+    - apply wfpb_spec in Ho. rewrite lookup_path_spec by auto. apply list_eqb_refl, entry_eqb_refl.
+    - apply list_eqb_refl, entry_eqb_refl.
+  Qed.
+
+  Theorem model_meets_spec_partial : forall ops t, wf w t ->
+    forallb (op_wf w) ops = true -> forallb op_proved ops = true ->
+    ok_trace_from w (to_slice t) ops (run w t ops) = true.
+  Proof.
+    induction ops as [|o ops IH]; intros t W H1 H2; simpl in *; auto.
+    apply andb_true_iff in H1. destruct H1 as [Ho H1].
+    apply andb_true_iff in H2. destruct H2 as [Hp H2].
+    pose proof (step_ok t o W Ho Hp) as OK.
+    destruct (step_trie_spec t o W Ho) as [W' S'].
+    destruct (step w t o) as [t' r] eqn:ST. simpl in *.
+    rewrite OK. simpl. rewrite <- S'. apply IH; auto.
+  Qed.
+
 End W.
